@@ -25,13 +25,19 @@ def gen_cases(rng, n_valid, n_fault):
         if H.count_nodes(r) <= 10:
             out.append({"routine": r, "faulted": False, "seed": rng.randint(0, 10**9)})
     k = 0
+    tries = 0
     while k < n_fault:
-        r = H.gen_hierarchy(rng, max_depth=rng.randint(2, 4), p_rep=rng.choice([0.4, 0.7]), p_through=0.2, max_children=rng.choice([2, 4]))
+        # every fault kind gets the same share; the hierarchy is drawn so that the kind can apply
+        kind = H.FAULT_KINDS[k % len(H.FAULT_KINDS)] if tries < 40 else None
+        r = H.gen_hierarchy(rng, max_depth=rng.randint(2, 4), p_rep=rng.choice([0.4, 0.7]),
+                            p_through=0.6 if kind == "self-loop" else 0.2, max_children=rng.choice([2, 4]))
         if H.count_nodes(r) > 10:
             continue
-        f = H.inject_fault(rng, r)
+        f = H.inject_fault(rng, r, kind)
         if f is None:
+            tries += 1
             continue
+        tries = 0
         out.append({"routine": f[0], "faulted": True, "fault": f[1], "seed": rng.randint(0, 10**9)})
         k += 1
     return out
